@@ -89,6 +89,8 @@ def ty_src(P, ty):
         return "fn(%s) -> %s" % (", ".join(ty_src(P, a) for a in ty["args"]), ty_src(P, ty["ret"]))
     if k == "ptr":
         return "*const %s" % ty_src(P, ty["of"])
+    if k == "cgen":
+        return ("::dx_support::Cn<{ %s }>" if ty.get("braced") else "::dx_support::Cn<%s>") % pname(P, ty["len"])
     if k == "assoc":
         return "%s::Assoc" % pname(P, ty["i"])
     if k == "qassoc":
